@@ -174,7 +174,7 @@ def _sample(case):
 def plan(tier: str) -> list[dict]:
     if tier == "quick":
         return ([{"mode": "basis", "ns": [1, 2, 3, 4, 5], "cost": 1}, {"mode": "basis", "ns": [6], "cost": 2}]
-                + [{"mode": "games", "max_n": 7, "examples": 120, "cost": 3} for _ in range(3)]
+                + [{"mode": "games", "max_n": 7, "examples": 350, "cost": 3} for _ in range(4)]
                 + [{"mode": "games", "max_n": 9, "min_n": 8, "examples": 12, "cost": 3}])
     return ([{"mode": "basis", "ns": [1, 2, 3, 4, 5, 6], "cost": 2}, {"mode": "basis", "ns": [7], "cost": 5},
              {"mode": "basis", "ns": [8], "cost": 12}, {"mode": "basis", "ns": [9], "cost": 40}]
